@@ -30,7 +30,7 @@ def run(core, tier, replay):
         print("MACHINERY-ERROR: the stateright explorer (harness/vsr) does not build")
         core.write_fail_evidence(prop, tier, "vsr build failed")
         return 2
-    n = "7" if tier == "thorough" else "4"
+    n = "7" if tier == "thorough" else "6"
     r = subprocess.run([os.path.join(core.HARNESS, "target-vsr", "release", "vsr"), n], stdout=subprocess.PIPE, stderr=subprocess.STDOUT, text=True, env=core.ENV, timeout=3600)
     try:
         res = json.loads(r.stdout.strip().splitlines()[-1])
